@@ -12,7 +12,7 @@ CHECK = {
          '(controller+fan+device state, symbol); symbols = control cycle at curve 0/100/255, third-party mode write 0/2/3, third-party PWM write (6 values quick, all 256 thorough '
          'for direct algorithms; expected+-1), a cycle with one such write injected before its k-th file operation (k=0..8), and a cycle during which every read of the PWM file fails (the interference must still be undone by the write; nothing is demanded of the counter in such a cycle). Oracle after every complete interference-free cycle: '
          'pwm_enable==1, device PWM == map[nearest supported(request)], counter +1 iff the device value at cycle start differed from what fan2go had set, +0 if nothing touched the PWM. '
-         'distinct_nontrivial = distinct reachable states summed over configurations. Also: a cycle with the fan reporting 0 RPM (never-stop fans; the counter must never decrease) and a PWM-only hwmon fan without tach input.',
+         'distinct_nontrivial = distinct reachable states summed over configurations. Also: a cycle with the fan reporting 0 RPM (never-stop fans; the counter must never decrease) and a PWM-only hwmon fan without tach input. First control cycle: fan2go has not set any value yet, so a counted third-party change in it (with nothing touching the PWM value) is a violation.',
  'assumptions': COMMON_ASSUME + ['the fan device reads back what was written (identity / idempotent maps)'],
  'level_text': 'every reachable state under the interference alphabet for direct algorithms (closure reported per configuration), depth-bounded sequences for PID',
  'level_note': 'interference is atomic with respect to single file operations (injected before an operation, never inside one); one interference per cycle mid-cycle, any number between cycles',
